@@ -295,6 +295,16 @@ def self_chain(e):
     return None
 
 
+def is_int_class(n) -> bool:
+    """`int`, or a tuple `(int, np.integer)` / `(int, numpy.integer)`: numpy integers are integers for the model"""
+    if isinstance(n, ast.Name):
+        return n.id == "int"
+    if isinstance(n, ast.Tuple) and n.elts and isinstance(n.elts[0], ast.Name) and n.elts[0].id == "int":
+        return all(isinstance(e, ast.Attribute) and isinstance(e.value, ast.Name) and e.value.id in ("np", "numpy")
+                   and e.attr == "integer" for e in n.elts[1:])
+    return False
+
+
 def none_test(ctx, test):
     """`x is None` / `x is not None` with x a variable (or slice field) of type OZ -> (pyname, coq, is_none)"""
     if (isinstance(test, ast.Compare) and len(test.ops) == 1 and isinstance(test.ops[0], (ast.Is, ast.IsNot))
@@ -632,7 +642,7 @@ def stmts(ctx: Ctx, body: list, node=None) -> str:
         # isinstance(s, int) dispatch on a someslice variable
         t = s.test
         if isinstance(t, ast.Call) and isinstance(t.func, ast.Name) and t.func.id == "isinstance" and len(t.args) == 2 \
-                and isinstance(t.args[0], ast.Name) and isinstance(t.args[1], ast.Name) and t.args[1].id == "int":
+                and isinstance(t.args[0], ast.Name) and is_int_class(t.args[1]):
             name = t.args[0].id
             b = ctx.env.get(name)
             if not b or b[0] != "v" or b[2] != "SS":
